@@ -272,7 +272,7 @@ fn exec(sh: &Shared, stack: &mut Vec<LocalH>, i: usize, op: &Op) {
                 }
             }
         }
-        Op::UnwindScope { slot } => {
+        Op::UnwindScope { slot, .. } => {
             let sp = span!(slot);
             let _g = sp.set_local_parent();
             let _l = LocalSpan::enter_with_local_parent("u");
